@@ -105,6 +105,12 @@ class NpShim:
             if isinstance(v, (list, tuple)):
                 return any(has_sym(e) for e in v)
             return is_sym(v)
+        isnum = lambda v: isinstance(v, (SymReal, SymInt, int, float)) and not isinstance(v, bool)
+        if isinstance(x, (list, tuple)) and x and all(isinstance(r, (list, tuple)) and r and all(isnum(v) for v in r)
+                                                      for r in x) and has_sym(x) and not a and not k:
+            return SymMat([list(r) for r in x])
+        if isinstance(x, tuple) and x and all(isnum(v) for v in x) and has_sym(x) and not a and not k:
+            return SymVec(list(x))
         if isinstance(x, list) and x and all(isinstance(v, (SymReal, int, float)) and not isinstance(v, bool) for v in x) \
                 and any(isinstance(v, SymReal) for v in x) and not a and not k:
             return SymArray1(x)
@@ -114,7 +120,18 @@ class NpShim:
         return numpy.array(x, *a, **k)
 
     @staticmethod
+    def argmin(x, *a, **k):
+        if isinstance(x, SymVec):
+            return _argmin(x.v, nan_aware=False)
+        if isinstance(x, OpaqueArray):
+            raise Unsupported("numpy.argmin of an opaque array")
+        import numpy
+        return numpy.argmin(x, *a, **k)
+
+    @staticmethod
     def nanargmin(x, *a, **k):
+        if isinstance(x, SymVec):
+            return _argmin(x.v, nan_aware=True)
         if isinstance(x, OpaqueArray):
             # some index, or ValueError when every entry is NaN: which one is numerics outside the model
             c = Ctx.cur
@@ -226,9 +243,65 @@ class SymArray2:
         return out
 
 
+NORM2 = z3.Function("NORM2", R, R, R)
+
+
+def _nan(v):
+    return isinstance(v, float) and v != v
+
+
+class SymVec:
+    """1-D array of reals, possibly with NaN entries"""
+
+    def __init__(self, v):
+        self.v = list(v)
+
+
+class SymMat:
+    """2-D array (rows of reals, possibly NaN): X - Mu and norm(axis=1), as used by is50or60"""
+
+    def __init__(self, rows):
+        self.rows = rows
+
+    def __sub__(self, o):
+        if isinstance(o, SymVec) and all(len(r) == len(o.v) for r in self.rows):
+            return SymMat([[(float("nan") if _nan(a) or _nan(b) else a - b) for a, b in zip(r, o.v)] for r in self.rows])
+        raise Unsupported("array arithmetic on symbolic arrays")
+
+
+def _argmin(vals, nan_aware):
+    """numpy.argmin / nanargmin over reals with NaN entries; comparisons of symbolic entries fork the path"""
+    c = Ctx.cur
+    if c is not None:
+        c.notes.append(("argmin_input", list(vals)))
+    nans = [k for k, v in enumerate(vals) if _nan(v)]
+    if nans and not nan_aware:
+        return nans[0]                      # NaN propagates: numpy.argmin returns the first NaN
+    cand = [k for k in range(len(vals)) if k not in nans]
+    if not cand:
+        raise ValueError("All-NaN slice encountered")
+    best = cand[0]
+    for k in cand[1:]:
+        if bool(SymReal.of(vals[k]) < SymReal.of(vals[best])):
+            best = k
+    return best
+
+
 class _Linalg:
     @staticmethod
     def norm(x, *a, **k):
+        if isinstance(x, SymMat) and k.get("axis") == 1 and not a:
+            out = []
+            for r in x.rows:
+                if any(_nan(v) for v in r):
+                    out.append(float("nan"))
+                elif len(r) == 2:
+                    t = NORM2(SymReal.of(r[0]).t, SymReal.of(r[1]).t)
+                    Ctx.cur.assume(t >= 0)
+                    out.append(SymReal(t))
+                else:
+                    raise Unsupported("norm of rows that are not 2-vectors")
+            return SymVec(out)
         if isinstance(x, OpaqueArray):
             return OpaqueArray("norm")
         import numpy
